@@ -888,7 +888,8 @@ Section PARSER.
       let* '(_, ts) := eat K_RBRACKET ts in
       Ok (PPeekSl start stop tag, ts).
 
-  (* parse_expression / parse_infix_expression (mutually recursive in Python: fuel) *)
+  (* parse_expression / parse_infix_expression (mutually recursive in Python: fuel; the `while`
+     loops of parse_expression and parse_infix_expression are infix_loop and infix_run) *)
   Fixpoint parse_expression (fuel : nat) (precedence : N) (ts : list token) {struct fuel}
     : res (pexpr * list token) :=
     match fuel with
@@ -969,24 +970,28 @@ Section PARSER.
     match fuel with
     | O => OutOfFuel
     | S fuel' =>
-        let '(token, ts) := pnext ts in
+        let token := current ts in
         let k := tk_kind token in
         let precedence := precedence_of k in
-        let* '(right_, ts) := parse_expression fuel' precedence ts in
-        if kind_eqb k K_CHOICE_OP then
-          match right_ with
-          | PAlt es => Ok (PAlt (left_ :: es), ts)
-          | _ => Ok (PAlt [left_; right_], ts)
-          end
-        else if kind_eqb k K_SEQUENCE_OP then
-          match right_ with
-          | PSeq es => Ok (PSeq (left_ :: es), ts)
-          | _ => Ok (PSeq [left_; right_], ts)
-          end
-        else Syn (tk_start token)
+        if negb (is_infix k) then Syn (tk_start token)       (* self.pos += 1; raise *)
+        else
+          let* '(operands, ts) := infix_run fuel' k (precedence + 1) [left_] ts in
+          if kind_eqb k K_CHOICE_OP then Ok (PAlt operands, ts) else Ok (PSeq operands, ts)
+    end
+  (* `while self.current().kind == kind: self.pos += 1; operands.append(self.parse_expression(..))`
+     (`operands` is kept in reverse) *)
+  with infix_run (fuel : nat) (k : kind) (precedence : N) (roperands : list pexpr) (ts : list token)
+    {struct fuel} : res (list pexpr * list token) :=
+    match fuel with
+    | O => OutOfFuel
+    | S fuel' =>
+        if cur_kind_is ts k then
+          let* '(e, ts) := parse_expression fuel' precedence (tl ts) in
+          infix_run fuel' k precedence (e :: roperands) ts
+        else Ok (rev roperands, ts)
     end.
 
-  Definition pexpr_fuel (ts : list token) : nat := (3 * length ts + 3)%nat.
+  Definition pexpr_fuel (ts : list token) : nat := (4 * length ts + 4)%nat.
 
   (* parse_modifier *)
   Definition parse_modifier (ts : list token) : N * list token :=
